@@ -33,7 +33,7 @@ def pre(p):
 def shards(tier, seed):
     out = []
     for i in range(0, 30, 5):
-        out.append({"name": "diatonic-%d" % (i // 5), "kind": "diatonic", "keys": [k[0] for k in T.KEYS[i:i + 5]], "after_history": i in (0, 15),
+        out.append({"name": "diatonic-%d" % (i // 5), "kind": "diatonic", "keys": [k[0] for k in T.KEYS[i:i + 5]], "after_history": i in (0, 15), "before_history": i in (5, 20),
                     "weight": 3})
     out.append({"name": "suffixes", "kind": "suffix", "weight": 3,
                 "keys": ["C", "Eb", "f#"] if tier == "quick" else [k[0] for k in T.KEYS]})
@@ -154,6 +154,10 @@ def run(shard, ctx):
                 for ch, sh, lg in [(tri[i], FUNC_NUM[NUM[i]], FN[i]), (sev[i], FUNC_NUM[NUM[i]] + "7", FN[i] + " seventh")]:
                     w = {"key": kname, "chord": ch}
                     arg = list(ch)
+                    if (i + len(kname)) % 2:
+                        from mingus.core import chords as _ch
+                        ctx.call(_ch.determine, list(ch), True)       # naming the chord first must not change its function
+                        ctx.call(_ch.determine, list(ch))
                     st, a = ctx.call(P.determine, arg, kname, True)
                     ctx.check("function: numeral of a diatonic chord", st == "ok" and isinstance(a, list) and sh in a, w, sh, repr(a),
                               mechanism="determine-short")
@@ -289,6 +293,15 @@ def run(shard, ctx):
                 wfp = wellformed(s)
                 judge_results("substitute", s, wfp[0], wfp[1], res, w)
             ctx.case(("substitute2", key, tuple(orig), idx))
+        # negative indices address the progression from its end
+        for s in ("I", "V7", "IIm", "VIIdim7", "bIIIM"):
+            for depth in (0, 1):
+                prog = ["IV", "I", s]
+                st, r1 = ctx.call(P.substitute, list(prog), -1, depth)
+                st2, r2 = ctx.call(P.substitute, list(prog), 2, depth)
+                ctx.check("substitution: a negative index gives the same substitutes as the equivalent non-negative one",
+                          st == "ok" and st2 == "ok" and r1 == r2, {"progression": prog, "depth": depth}, r2 if st2 == "ok" else None,
+                          {"count": len(r1)} if st == "ok" and isinstance(r1, list) else repr(r1), mechanism="negative-index")
         ctx.note_exhaustive("5 rules x ignore_suffix + substitute depth 0/1, x 7 numerals x suffixes x prefixes -3..3 in key " + key, n)
         ctx.sample({"substitute(['I','IV','V','I'],0)": P.substitute(["I", "IV", "V", "I"], 0),
                     "substitute_minor_for_major(['Vm'],0)": P.substitute_minor_for_major(["Vm"], 0)})
